@@ -582,10 +582,10 @@ func rleCase(r *rand.Rand, i int) {
 				}
 			}
 			if !canonical {
-				p.Count("normalize_result_not_sorted_or_not_merged(observed, not judged)", 1)
+				p.Count("notjudged_normalize_result_not_canonical", 1)
 			}
 			if runsKey(fromRLEs(in)) != rk {
-				p.Count("normalize_mutated_receiver(observed)", 1)
+				p.Count("notjudged_normalize_mutated_receiver", 1)
 			}
 		}
 	}
@@ -640,7 +640,7 @@ func rleCase(r *rand.Rand, i int) {
 				rleViolation("partition:wrong-block:"+cls, desc+": "+wrongBlock, witness(rs, map[string]interface{}{"block_size": bs}))
 			}
 			if nv := br.NumVoxels(); nv != uint64(utotal) {
-				p.Count("partition_NumVoxels_mismatch(observed)", 1)
+				p.Count("notjudged_partition_NumVoxels_mismatch", 1)
 			}
 		}
 	}
@@ -752,7 +752,7 @@ func rleCase(r *rand.Rand, i int) {
 				rleViolation("fit:voxel-set-wrong", fmt.Sprintf("%s: FitToBounds(%s) kept %d voxels, expected %d: %s", desc, bdesc, len(oset), len(want), diffDesc(oset, want)), witness(rs, map[string]interface{}{"bounds": bdesc, "result": og}))
 			}
 			if runsKey(fromRLEs(in)) != rk {
-				p.Count("fit_mutated_receiver(observed)", 1)
+				p.Count("notjudged_fit_mutated_receiver", 1)
 			}
 		}
 		// "no bounds" given as a nil pointer (the function has an explicit branch for it)
@@ -800,7 +800,7 @@ func rleCase(r *rand.Rand, i int) {
 					rleViolation("add:voxel-set-wrong", fmt.Sprintf("%s: Add(%v) gives %d voxels, expected union of %d: %s", desc, other, len(got), len(want), diffDesc(got, want)), witness(rs, map[string]interface{}{"added": other, "result": fromRLEs(recv)}))
 				}
 				if added != int64(len(want)-len(set)) {
-					p.Count("add_voxelsAdded_differs_from_new_voxel_count(observed, not judged)", 1)
+					p.Count("notjudged_add_voxelsAdded_differs_from_new_voxels", 1)
 				}
 			}
 		}
